@@ -257,6 +257,199 @@ impl C35 {
     }
 }
 
+/// Size-threshold stress (S10).  One chain, a stored set of `k` disjoint ranges holding >= `total` heights
+/// (`remove`s split some ranges further), then — on that ONE store (`batch` does not change it) — fresh workers and
+/// `batch` ops whose cutoffs are placed so that the number of prune candidates is exactly each `targets` value
+/// (63/64/65, 511/512/513 = MAX_PRUNABLE_BATCH_SIZE +-1, ..), in both window orders, with and without refused
+/// heights, with the cutoff strictly between two header times and exactly at a header time; window edges exactly
+/// at / one tick around range starts and ends and deep inside a range; finally real `run` loops.
+fn thr_scenario(rng: &mut Rng, out: &mut Emitter, thorough: bool, k: u64, total: u64, targets: &[u64]) {
+    let label = format!("{k}r{total}");
+    let avg = (total / k).max(1);
+    let mut rs: Vec<(u64, u64)> = vec![];
+    let mut h = 1 + rng.below(2);
+    let mut have = 0;
+    for i in 0..k {
+        let left = k - i;
+        let need = total.saturating_sub(have);
+        let len = if left == 1 { need.max(1) } else if avg == 1 { 1 } else { rng.range(1, 2 * avg - 1) };
+        rs.push((h, h + len - 1));
+        have += len;
+        h += len + if rng.bool() { 1 } else { rng.range(1, 3) };
+    }
+    let n = rs.last().unwrap().1 + rng.below(4);
+    let mut t = rng.range(1, 20);
+    let mut times = vec![];
+    for _ in 0..n {
+        t += rng.range(2, 4); // >= 2 apart: `time + 1` lies strictly between two header times
+        times.push(t);
+    }
+    let tmax = t;
+    let time = |h: u64| times[(h - 1) as usize];
+    out.op(format!("chain times={}", natl(&times)), &format!("chain/thr-{label}"), false);
+    let rss: Vec<String> = rs.iter().map(|(a, b)| format!("{a}-{b}")).collect();
+    out.op(format!("insert rs={}", rss.join(",")), &format!("insert/thr-{label}"), false);
+    let mut stored = vec![false; (n + 3) as usize];
+    for &(a, b) in &rs {
+        for x in a..=b {
+            stored[x as usize] = true;
+        }
+    }
+    let mut synced = stored.clone();
+    // earlier prunings: a few, inside ranges (splits them: more stored ranges, synced ranges unchanged)
+    let mut rem = vec![];
+    for _ in 0..rng.range(0, k / 8 + 2) {
+        let x = rng.range(1, n);
+        if stored[x as usize] {
+            stored[x as usize] = false;
+            rem.push(x);
+        }
+    }
+    rem.sort();
+    rem.dedup();
+    if !rem.is_empty() {
+        out.op(format!("remove hs={}", natl(&rem)), "remove/thr", false);
+    }
+    synced.push(false);
+    let st: Vec<u64> = (1..=n).filter(|&x| stored[x as usize]).collect();
+    let unsampled_den = *rng.pick(&[6u64, 12, 40]);
+    let sampled: Vec<bool> = (0..=n + 1).map(|x| x >= 1 && x <= n && stored[x as usize] && !rng.chance(1, unsampled_den)).collect();
+    let smp: Vec<u64> = st.iter().copied().filter(|&x| sampled[x as usize]).collect();
+    out.op(format!("sample hs={}", natl(&smp)), "sample/thr", false);
+    let mut next_cid = 1u64;
+    for _ in 0..12 {
+        let hh = *rng.pick(&st);
+        let c = rng.range(0, 3);
+        let cids: Vec<u64> = (0..c).map(|_| { next_cid += 1; next_cid }).collect();
+        out.op(format!("meta h={hh} cids={}", natl(&cids)), "meta", false);
+    }
+    let is_edge = |x: u64| !synced[(x - 1) as usize] || !synced[(x + 1) as usize];
+    let pick_refuse = |rng: &mut Rng, pool: &[u64], cnt: u64| -> Vec<u64> {
+        let mut v: Vec<u64> = vec![];
+        if !pool.is_empty() {
+            for _ in 0..cnt {
+                v.push(*rng.pick(pool));
+            }
+        }
+        v.sort();
+        v.dedup();
+        v
+    };
+    let mut last_c2: Option<(u64, u64)> = None;
+    for &nn in targets {
+        if nn + 2 > st.len() as u64 {
+            continue;
+        }
+        // window order 1 (pruning cutoff <= sampling cutoff): exactly nn stored heights at or below the edge
+        let e = st[(nn - 1) as usize];
+        out.op(format!("worker sc={} pc={}", tmax + 3, time(e)), "worker/thr-c1", false);
+        out.op(format!("batch sc={} pc={} refresh=1 refuse=-", tmax + 3, time(e) + 1), &format!("thr/batch-c1-{nn}"), true);
+        // refuse unsampled candidates near the top and around the 512-th candidate from the top
+        let cand = &st[..nn as usize];
+        let uns: Vec<u64> = cand.iter().copied().filter(|&x| !sampled[x as usize]).collect();
+        let refuse = pick_refuse(rng, &uns, 4);
+        out.op(
+            format!("batch sc={} pc={} refresh=1 refuse={}", tmax + 3, time(e) + 1, natl(&refuse)),
+            &format!("thr/batch-c1-{nn}-refuse"),
+            true,
+        );
+        if thorough || rng.bool() {
+            // tie: the cutoff is exactly the edge header's time
+            out.op(format!("worker sc={} pc={}", tmax + 3, time(e)), "worker/thr-c1", false);
+            out.op(
+                format!("batch sc={} pc={} refresh=1 refuse={}", tmax + 3, time(e), natl(&refuse)),
+                &format!("thr/batch-c1-{nn}-tie"),
+                true,
+            );
+        }
+        // window order 2 (pruning cutoff above the sampling cutoff): exactly nn sampled non-edge stored heights
+        // above the sampling edge and at or below the pruning edge
+        let m = rng.range(1, 12).min(st.len() as u64 - 1);
+        let e0 = st[(m - 1) as usize];
+        let mut cnt = 0;
+        let mut e2 = None;
+        for &x in &st[m as usize..] {
+            if sampled[x as usize] && !is_edge(x) {
+                cnt += 1;
+                if cnt == nn {
+                    e2 = Some(x);
+                    break;
+                }
+            }
+        }
+        if let Some(e2) = e2 {
+            let low: Vec<u64> = st[..m as usize].to_vec();
+            let refuse = if rng.bool() { pick_refuse(rng, &low, 3) } else { vec![] };
+            out.op(format!("worker sc={} pc={}", time(e0), time(e2)), "worker/thr-c2", false);
+            out.op(
+                format!("batch sc={} pc={} refresh=1 refuse={}", time(e0) + 1, time(e2) + 1, natl(&refuse)),
+                &format!("thr/batch-c2-{nn}"),
+                true,
+            );
+            if thorough || rng.chance(1, 3) {
+                out.op(
+                    format!("batch sc={} pc={} refresh=0 refuse={}", time(e0) + 1, time(e2) + 1, natl(&low)),
+                    &format!("thr/batch-c2-{nn}-cached-refuse-all"),
+                    true,
+                );
+            }
+            last_c2 = Some((e0, e2));
+        }
+    }
+    // window edges exactly at / one tick around range starts and ends, and deep inside a range
+    let cur: Vec<(u64, u64)> = {
+        let mut v: Vec<(u64, u64)> = vec![];
+        for &x in &st {
+            match v.last_mut() {
+                Some((_, e)) if *e + 1 == x => *e = x,
+                _ => v.push((x, x)),
+            }
+        }
+        v
+    };
+    let edge_cases = if thorough { 12 } else { 5 };
+    for _ in 0..edge_cases {
+        let i = rng.below(cur.len() as u64) as usize;
+        let j = rng.below(cur.len() as u64) as usize;
+        let (lo, hi) = (cur[i.min(j)], cur[i.max(j)]);
+        let at = |rng: &mut Rng, r: (u64, u64)| -> (u64, &'static str) {
+            match rng.below(3) {
+                0 => (r.0, "start"),
+                1 => (r.1, "end"),
+                _ => ((r.0 + r.1) / 2, "deep"),
+            }
+        };
+        let (a, an) = at(rng, lo);
+        let (b, bn) = at(rng, hi);
+        let d = |rng: &mut Rng, x: u64| (time(x) + rng.below(3)).saturating_sub(1);
+        let (ca, cb) = (d(rng, a), d(rng, b));
+        let uns: Vec<u64> = st.iter().copied().filter(|&x| !sampled[x as usize] && x <= b).collect();
+        let refuse = pick_refuse(rng, &uns, 3);
+        // sampling edge below the pruning edge, and the other way round
+        out.op(format!("worker sc={ca} pc={cb}"), "worker/thr-edge", false);
+        out.op(format!("batch sc={ca} pc={cb} refresh=1 refuse={}", natl(&refuse)), &format!("thr/edge-c2-{an}-{bn}"), true);
+        out.op(format!("worker sc={cb} pc={ca}"), "worker/thr-edge", false);
+        out.op(format!("batch sc={cb} pc={ca} refresh=1 refuse={}", natl(&refuse)), &format!("thr/edge-c1-{an}-{bn}"), true);
+    }
+    // the real loop: first with the pruning window smaller (largest threshold placement found), then everything
+    if let Some((e0, e2)) = last_c2 {
+        out.op(format!("worker sc={} pc={}", time(e0), time(e2)), "worker/thr-c2", false);
+        let low: Vec<u64> = st.iter().copied().filter(|&x| x <= e0 && !sampled[x as usize]).collect();
+        let refuse: Vec<String> = pick_refuse(rng, &low, 2).iter().map(|x| format!("{x}:1")).collect();
+        out.op(format!("run refuse={}", show_list(&refuse)), &format!("thr/run-c2-{label}"), true);
+    }
+    out.op(format!("worker sc={} pc={}", tmax + 3, tmax + 3), "worker/thr-c1", false);
+    let uns: Vec<u64> = st.iter().copied().filter(|&x| !sampled[x as usize]).collect();
+    let refuse: Vec<String> =
+        pick_refuse(rng, &uns, 3).iter().map(|x| format!("{x}:{}", rng_pick_k(x))).collect();
+    out.op(format!("run refuse={}", show_list(&refuse)), &format!("thr/run-all-{label}"), true);
+}
+
+/// refusal counter of a height in the final `run` (deterministic, no rng): once, twice or for ever
+fn rng_pick_k(h: &u64) -> u64 {
+    [1, 2, 999][(h % 3) as usize]
+}
+
 impl Prop for C35 {
     fn id(&self) -> &'static str {
         "C35"
@@ -268,7 +461,13 @@ impl Prop for C35 {
          sampling cutoff, and equal), cutoffs at/between header times; `batch` ops = get_next_prunable_batch with explicit \
          non-decreasing (sometimes decreasing: correspondence only) cutoffs, cache refresh on/off, a set of refused heights; \
          `run` ops = the real Worker::run loop until idle with per-height refusal counters, followed by more inserts / \
-         samplings and further runs; stores above 512 prunable heights exercise the batch limit. \
+         samplings and further runs; stores above 512 prunable heights exercise the batch limit; \
+         size-threshold stress (tags thr/..): stores of 9 / 17 / 33 / 65 (thorough: also 129) disjoint ranges and of 3-5 \
+         long ranges (640 heights; thorough up to 2300), on which fresh workers + `batch` ops place the window edges so \
+         that the number of prune candidates is exactly 8/9, 16/17, 32/33, 63/64/65, 127/128/129, 511/512/513 \
+         (MAX_PRUNABLE_BATCH_SIZE +-1; thorough also 1023..1025, 2047..2049), in both window orders, with refused \
+         heights, cutoff strictly between two header times and exactly at a header time; window edges at / one tick \
+         around range starts and ends and deep inside ranges; then real run loops (two 512-batches). \
          non-trivial = a batch or run op whose batch / removal log is non-empty"
     }
 
@@ -402,6 +601,27 @@ impl Prop for C35 {
                         out.op("run refuse=-", &format!("run/again-{order}"), true);
                     }
                 }
+            }
+        }
+        // (4) size-threshold stress (S10)
+        out.op("reset", "reset", false);
+        let small = [8u64, 9, 16, 17, 32, 33, 63, 64, 65, 127, 128, 129];
+        let lim = [63u64, 64, 65, 511, 512, 513];
+        let reps = if thorough { 6 } else { 1 };
+        for _ in 0..reps {
+            thr_scenario(rng, out, thorough, 9, 40, &small);
+            thr_scenario(rng, out, thorough, 17, 70, &small);
+            thr_scenario(rng, out, thorough, 33, 140, &small);
+            thr_scenario(rng, out, thorough, 65, 200, &small);
+            // MAX_PRUNABLE_BATCH_SIZE = 512: candidate counts 511 / 512 / 513 over many small and over few long ranges
+            thr_scenario(rng, out, thorough, 65, 640, &lim);
+            thr_scenario(rng, out, thorough, 5, 640, &lim);
+        }
+        if thorough {
+            for _ in 0..3 {
+                thr_scenario(rng, out, thorough, 129, 700, &lim);
+                thr_scenario(rng, out, thorough, 33, 1200, &[511, 512, 513, 1023, 1024, 1025]);
+                thr_scenario(rng, out, thorough, 3, 2300, &[512, 513, 1024, 1025, 2047, 2048, 2049]);
             }
         }
     }
